@@ -61,9 +61,11 @@ structure Tables where
   pyConsts : List Nat
   pyTypedefs : List (CType × CType)
   renamesOk : Bool
+  /-- the named constants the bindings export: (the header constant of that name, the header constant assigned to it) -/
+  aliases : List (Nat × Nat) := []
 
-/-- the whole consistency check -/
-def check (t : Tables) : Bool :=
+/-- the consistency of declarations, values, layouts and call sites -/
+def checkCore (t : Tables) : Bool :=
   t.rust == t.header
   && t.rustEnum == t.headerEnum
   && t.rustStruct == t.headerStruct
@@ -73,5 +75,10 @@ def check (t : Tables) : Bool :=
   && t.pyConsts.all (fun k => t.headerEnum.any (fun kv => kv.1 = k))
   && t.pyTypedefs.all (fun p => p.1.width = p.2.width)
   && t.renamesOk
+
+/-- the whole consistency check: the above, and every named constant of a binding denotes the header constant of the
+same name (`PROC_THREAD_SELF = libpathrs_so.PATHRS_PROC_THREAD_SELF`, `pathrsProcSelf = C.PATHRS_PROC_SELF`) -/
+def check (t : Tables) : Bool :=
+  checkCore t && t.aliases.all (fun p => p.1 == p.2)
 
 end Abi
